@@ -1,6 +1,16 @@
 (* C05 model driver. One case per line, one answer line per case.
      L p o n r ; p o n r ; ...     judge a real ledger with the extracted, proved checker
-         -> "B" balanced | "X <index> <reason> <p> <o> <n> <r>" first offending event | "K <p>:<size> ..." leaked blocks *)
+         -> "B" balanced | "X <index> <reason> <p> <o> <n> <r>" first offending event | "K <p>:<size> ..." leaked blocks
+     M <fuel> <oracle: string of 0/1 or -> <program s-expression>
+         compile the skeleton with the extracted Own.compile, run it with the oracle
+         -> "N" does not compile | "F" no normal termination within the fuel
+          | "<verdict as above> # p o n r ; ..."   the model's ledger and the checker's verdict on it
+   Skeleton syntax (see checks/c05.py, class Sk):
+     expr  P | (V x) | (Q x k) | (L n) | (U1 e) | (U2 a b) | (D e n) | (C a b) | (B n e..) | (F f arg..) | (X n|- arg..) | (A a b) | (I c a b)
+     arg   (v e) | (r x)
+     stmt  K | (S s..) | (d x e) | (= x e) | (p x k e) | (e e) | (b s) | (i c a b) | (w c b) | (o b c) | (r c k b)
+           | (f from to step 0|1 k b) | (E x n|- e k b) | B | N | (R) | (R e)
+     prog  (prog ((fun 0|1 ((x v|r|c 0|1)..) body)..) main) *)
 open C05_model
 open Common
 
@@ -9,11 +19,12 @@ let n_of_int i = if i = 0 then N0 else Npos (pos_of_int i)
 let rec int_of_pos = function XH -> 1 | XO p -> 2 * int_of_pos p | XI p -> 2 * int_of_pos p + 1
 let int_of_n = function N0 -> 0 | Npos p -> int_of_pos p
 let ni s = n_of_int (int_of_string s)
+let rec nat_of_int i = if i <= 0 then O else S (nat_of_int (i - 1))
+let nat s = nat_of_int (int_of_string s)
 
 let reason_name = function RNullSized -> "null-with-size" | RNotLive -> "not-live" | RWrongSize -> "wrong-size" | RBadResult -> "bad-result"
 
 let parse_ledger toks =
-  (* toks: p o n r ; p o n r ; ... *)
   let rec go acc = function
     | p :: o :: n :: r :: rest ->
       let ev = { e_ptr = ni p; e_old = ni o; e_new = ni n; e_res = ni r } in
@@ -21,14 +32,101 @@ let parse_ledger toks =
     | _ -> List.rev acc in
   go [] toks
 
+let show_verdict v =
+  match v with
+  | Balanced -> "B"
+  | BadEvent (i, e, why) ->
+    Printf.sprintf "X %d %s %d %d %d %d" (int_of_n i) (reason_name why) (int_of_n e.e_ptr) (int_of_n e.e_old) (int_of_n e.e_new) (int_of_n e.e_res)
+  | Leaked bl -> String.concat " " ("K" :: List.map (fun (p, n) -> Printf.sprintf "%d:%d" (int_of_n p) (int_of_n n)) bl)
+
+(* ---- s-expressions *)
+type sx = A of string | Lx of sx list
+let tokenize s =
+  let b = Buffer.create 16 and out = ref [] in
+  let flush () = if Buffer.length b > 0 then (out := Buffer.contents b :: !out; Buffer.clear b) in
+  String.iter (fun c -> match c with
+    | '(' | ')' -> flush (); out := String.make 1 c :: !out
+    | ' ' | '\t' -> flush ()
+    | c -> Buffer.add_char b c) s;
+  flush (); List.rev !out
+let parse_sx toks =
+  let rec one = function
+    | "(" :: r -> let (l, r') = many r in (Lx l, r')
+    | ")" :: _ -> failwith "unexpected )"
+    | a :: r -> (A a, r)
+    | [] -> failwith "eof"
+  and many = function
+    | ")" :: r -> ([], r)
+    | [] -> failwith "eof in list"
+    | toks -> let (x, r) = one toks in let (xs, r') = many r in (x :: xs, r') in
+  fst (one toks)
+
+let optn = function A "-" -> None | A s -> Some (ni s) | _ -> failwith "optn"
+let rec expr = function
+  | A "P" -> EPrim
+  | Lx [A "V"; A x] -> EVar (nat x)
+  | Lx [A "Q"; A x; A k] -> EPart (nat x, nat k)
+  | Lx [A "L"; A n] -> ELit (ni n)
+  | Lx [A "U1"; a] -> EUse1 (expr a)
+  | Lx [A "U2"; a; b] -> EUse2 (expr a, expr b)
+  | Lx [A "D"; a; A n] -> EDerive (expr a, ni n)
+  | Lx [A "C"; a; b] -> EConcat (expr a, expr b)
+  | Lx (A "B" :: A n :: cs) -> EBuild (ni n, List.fold_right (fun c r -> XCons (expr c, r)) cs XNil)
+  | Lx (A "F" :: A f :: al) -> ECall (nat f, args al)
+  | Lx (A "X" :: n :: al) -> EExt (args al, optn n)
+  | Lx [A "A"; a; b] -> EAnd (expr a, expr b)
+  | Lx [A "I"; c; a; b] -> EFalls (expr c, expr a, expr b)
+  | _ -> failwith "expr"
+and args al = List.fold_right (fun a r -> match a with
+    | Lx [A "v"; e] -> AVal (expr e, r)
+    | Lx [A "r"; A x] -> ARef (nat x, r)
+    | _ -> failwith "arg") al ANil
+let rec stmt = function
+  | A "K" -> SSkip
+  | Lx (A "S" :: ss) -> (match ss with [] -> SSkip | _ -> let rec go = function [s] -> stmt s | s :: r -> SSeq (stmt s, go r) | [] -> SSkip in go ss)
+  | Lx [A "d"; A x; e] -> SDecl (nat x, expr e)
+  | Lx [A "="; A x; e] -> SAssign (nat x, expr e)
+  | Lx [A "p"; A x; A k; e] -> SAssignPart (nat x, nat k, expr e)
+  | Lx [A "e"; e] -> SExpr (expr e)
+  | Lx [A "b"; s] -> SBlock (stmt s)
+  | Lx [A "i"; c; a; b] -> SIf (expr c, stmt a, stmt b)
+  | Lx [A "w"; c; b] -> SWhile (expr c, stmt b)
+  | Lx [A "o"; b; c] -> SDoWhile (stmt b, expr c)
+  | Lx [A "r"; c; A k; b] -> SRepeat (expr c, nat k, stmt b)
+  | Lx [A "f"; fr; t; st; A dn; A k; b] -> SFor (expr fr, expr t, expr st, (dn = "1"), nat k, stmt b)
+  | Lx [A "E"; A x; np; e; A k; b] -> SForEach (nat x, optn np, expr e, nat k, stmt b)
+  | A "B" -> SBreak
+  | A "N" -> SContinue
+  | Lx [A "R"] -> SReturn None
+  | Lx [A "R"; e] -> SReturn (Some (expr e))
+  | _ -> failwith "stmt"
+let fundef = function
+  | Lx [A "fun"; A ret; Lx ps; body] ->
+    { f_params = List.map (function
+        | Lx [A x; A m; A np] -> ((nat x, (match m with "v" -> MVal | "r" -> MRef | "c" -> MConst | _ -> failwith "mode")), np = "1")
+        | _ -> failwith "param") ps;
+      f_ret = (ret = "1"); f_body = stmt body }
+  | _ -> failwith "fundef"
+let program = function
+  | Lx [A "prog"; Lx fs; m] -> { p_funs = List.map fundef fs; p_main = stmt m }
+  | _ -> failwith "prog"
+
+let show_ledger l =
+  String.concat " ; " (List.map (fun e -> Printf.sprintf "%d %d %d %d" (int_of_n e.e_ptr) (int_of_n e.e_old) (int_of_n e.e_new) (int_of_n e.e_res)) l)
+
 let () =
   List.iter (fun line ->
     match split_ws line with
-    | "L" :: toks ->
-      (match check_ledger (parse_ledger toks) with
-       | Balanced -> print_endline "B"
-       | BadEvent (i, e, why) ->
-         Printf.printf "X %d %s %d %d %d %d\n" (int_of_n i) (reason_name why) (int_of_n e.e_ptr) (int_of_n e.e_old) (int_of_n e.e_new) (int_of_n e.e_res)
-       | Leaked bl ->
-         print_endline (String.concat " " ("K" :: List.map (fun (p, n) -> Printf.sprintf "%d:%d" (int_of_n p) (int_of_n n)) bl)))
+    | "L" :: toks -> print_endline (show_verdict (check_ledger (parse_ledger toks)))
+    | "M" :: fuel :: orc :: rest ->
+      (try
+        let p = program (parse_sx (tokenize (String.concat " " rest))) in
+        let oracle = if orc = "-" then [] else List.init (String.length orc) (fun i -> orc.[i] = '1') in
+        (match compile p with
+         | None -> print_endline "N"
+         | Some _ ->
+           (match run_program (nat fuel) oracle p with
+            | None -> print_endline "F"
+            | Some l -> print_endline (show_verdict (check_ledger l) ^ " # " ^ show_ledger l)))
+      with Failure m -> print_endline ("? " ^ m))
     | _ -> print_endline "?") (read_lines stdin)
